@@ -7,7 +7,7 @@ export GOFLAGS=-mod=mod GOPROXY=off GOSUMDB=off GOTOOLCHAIN=local PATH=/opt/veri
 mkdir -p /tmp/vm; git -C /repo worktree remove --force $WT 2>/dev/null; rm -rf $WT
 git -C /repo worktree add --detach $WT HEAD >/dev/null 2>&1 || exit 2
 cd $WT; mkdir MUTANT; cp -r $SRC/* MUTANT/
-DEMO=$(python3 -c "import json;print(json.load(open('MUTANT/meta.json'))['demo_cmd'])")
+DEMO=$(python3 -c "import json;print(json.load(open('MUTANT/meta.json'))['demo_cmd'].replace('/tmp/mut/$N','$WT'))")
 res() { echo "RESULT $N $1"; }
 git apply MUTANT/patch.diff || { res "patch-does-not-apply"; exit 1; }
 B=$(go build ./... 2>&1 | grep -v "^#" | grep -v "unmarshal/legacy\|writer/http" | head -5)
